@@ -17,7 +17,7 @@ for pid in ids:
             'evidence_file': '/verif/evidence/%s.json' % pid,
             'replay_cmd_template': './check %s --replay {path}' % pid,
             'engine': 'pyvc',
-            'level_claimed': {'category': P.get('level', 'proof'), 'text': P.get('level_text', ''), 'design_ref': 'DESIGN.md section 6 ' + pid},
+            'level_claimed': {'category': P.get('level', 'proof'), 'text': P.get('level_text', ''), 'design_ref': 'DESIGN.md section 2, row ' + pid + ' (plan: appendix P section 6 ' + pid + ')'},
             'level_note': P.get('level_note', '; '.join(P.get('trusted_base', []))),
             'technique': P.get('technique', 'contract-based deductive verification: VCs generated from the real AST + sidecar contracts (pyvc), discharged by z3; counter-models replayed on the real code'),
         })
